@@ -1,6 +1,7 @@
 package main
 
 import (
+	"fmt"
 	"strconv"
 	"strings"
 	"sync"
@@ -92,7 +93,7 @@ func c04(r *mon.Run) {
 	r.Exhaustive = true
 	r.Floor = 1000
 	r.Assumptions = []string{"ref.Accepts is the published ABNF (calibrated: accepts the 724 valid and rejects the 93 syntactically invalid expressions of the compliance suite)",
-		"lexemes are valid (well-formed JSON literal, 64-bit numbers): lexeme-internal errors are C05/C17 territory"}
+		"the enumerations use valid lexemes (well-formed JSON literal, 64-bit numbers); the inside of quoted identifiers (every ASCII byte raw and escaped, \\u forms) and of numbers (leading zeros, signs) is judged against the lexical ABNF by the inside-lexemes workload; raw strings and literals are C14's (their ABNF and the implementation's json decoding differ on control characters, which no property fixes)"}
 	A := len(c04Alphabet)
 	offs := []int{0}
 	pow := 1
@@ -274,7 +275,79 @@ func c04Long(r *mon.Run) {
 			}
 			judge(t, "long-random-sentences", i, mutateLex(lex, i%nmut))
 		}}
-	r.Exec(w1, w2)
+	// inside a lexeme: quoted identifiers per the ABNF (unescaped-char = %x20-21 / %x23-5B / %x5D-10FFFF, escapes
+	// \" \\ \/ \b \f \n \r \t \uXXXX) with every ASCII byte raw and after a backslash, and numbers in every
+	// spelling the ABNF allows (["-"] 1*digit: leading zeros, -0) in every bracket position
+	type lx struct {
+		expr string
+		ok   bool
+		what string
+	}
+	var lxs []lx
+	qctx := []func(string) string{func(q string) string { return q }, func(q string) string { return "foo." + q }, func(q string) string { return "{" + q + ": a}" }, func(q string) string { return q + ".b[0]" }}
+	for b := 0; b < 128; b++ {
+		raw := "\"a" + string(rune(b)) + "c\""
+		okRaw := b >= 0x20 && b != '"' && b != '\\'
+		esc := "\"a\\" + string(rune(b)) + "c\""
+		okEsc := strings.ContainsRune("\"\\/bfnrt", rune(b))
+		for k, c := range qctx {
+			lxs = append(lxs, lx{c(raw), okRaw, fmt.Sprintf("quoted identifier with raw byte 0x%02x (context %d)", b, k)}, lx{c(esc), okEsc, fmt.Sprintf("quoted identifier with escape \\%q (context %d)", rune(b), k)})
+		}
+	}
+	for _, u := range []struct {
+		s  string
+		ok bool
+	}{{"\\u00e9", true}, {"\\u00E9", true}, {"\\ud83d\\ude00", true}, {"\\u12", false}, {"\\u12G4", false}, {"\\u", false}, {"\\U00e9", false}, {"\\u 0e9", false}, {"\\x41", false}, {"\\101", false}, {"\\u0000", true}, {"\\u001f", true}, {"é😀", true}, {"\t", false}, {"\n", false}, {"\r", false}} {
+		for k, c := range qctx {
+			lxs = append(lxs, lx{c("\"k" + u.s + "z\""), u.ok, fmt.Sprintf("quoted identifier containing %q (context %d)", u.s, k)})
+		}
+	}
+	nums := []string{"0", "00", "000", "07", "08", "09", "010", "018", "0019", "-0", "-00", "-08", "-09", "-010", "1", "-1", "9", "19", "99", "0x1", "1e1", "1.0", "+1", "--1", "- 1", "١", "1_0", "9223372036854775807", "-9223372036854775808", "0000000000000000000009"}
+	for _, n := range nums {
+		ok := true
+		digits := strings.TrimPrefix(n, "-")
+		if digits == "" {
+			ok = false
+		}
+		for _, ch := range digits {
+			if ch < '0' || ch > '9' {
+				ok = false
+			}
+		}
+		for k, f := range []string{"a[%s]", "a[%s:]", "a[:%s]", "a[::%s]", "a[%s:%s:%s]", "[%s]", "a[*][%s]", "a.b[%s].c"} {
+			e := strings.ReplaceAll(f, "%s", n)
+			lxs = append(lxs, lx{e, ok, fmt.Sprintf("number spelling %q in bracket position %d", n, k)})
+		}
+	}
+	w3 := mon.Workload{Name: "inside-lexemes", N: len(lxs),
+		Describe: func(i int) string { return lxs[i].what },
+		Do: func(i int, t *mon.Tally) {
+			c := lxs[i]
+			t.Eval()
+			for k, o := range []mon.Observed{func() mon.Observed { _, o := apiCompile(c.expr); return o }(), apiSearch(c.expr, map[string]interface{}{})} {
+				api := []string{"Compile", "Search"}[k]
+				if o.Panicked {
+					r.Violate(&mon.Violation{Workload: "inside-lexemes", Index: i, API: api, Expr: c.expr, Expected: "no panic", Observed: o.String(), Class: "panic"})
+					return
+				}
+				rejected := o.Err != nil // (field and index access on {} cannot fail at evaluation time)
+				if c.ok && rejected {
+					r.Violate(&mon.Violation{Workload: "inside-lexemes", Index: i, API: api, Expr: c.expr, Expected: "accepted: " + c.what + " is allowed by the ABNF", Observed: o.String(), Class: "inside-lexemes: rejects-grammatical"})
+					return
+				}
+				if !c.ok && !rejected {
+					r.Violate(&mon.Violation{Workload: "inside-lexemes", Index: i, API: api, Expr: c.expr, Expected: "rejected at compile time: " + c.what + " is not allowed by the ABNF", Observed: o.String(), Class: "inside-lexemes: accepts-ungrammatical"})
+					return
+				}
+			}
+			if c.ok {
+				t.Count("lexeme spellings accepted as the ABNF says")
+			} else {
+				t.Count("lexeme spellings rejected as the ABNF says")
+			}
+			t.Nontrivial("lx:" + c.expr)
+		}}
+	r.Exec(w1, w2, w3)
 }
 
 // c04Whitespace: the no-space and mixed-whitespace spellings of a grammatical
